@@ -423,6 +423,11 @@ pub fn c19(ctx: &Ctx) -> PropResult {
         let _ = std::fs::remove_dir_all(&work);
         std::fs::create_dir_all(&work).unwrap();
         std::fs::write(dir.join("main.ap"), src).unwrap();
+        // files with the histories' names stand beside the program too: FS paths are relative to the working directory only
+        let _ = std::fs::create_dir_all(dir.join("d/e"));
+        for decoy in ["f1", "f2", "d/f", "d/e/g"] {
+            let _ = std::fs::write(dir.join(decoy), "decoy beside the program");
+        }
         let r = run_binary(&["../main.ap"], None, &work);
         let mut snap = vec![];
         snapshot(&work, "", &mut snap);
@@ -706,6 +711,10 @@ pub fn c13(ctx: &Ctx) -> PropResult {
             ("app/main.ap", vec![("app/main.ap", "IMPORT MOD \"sub/m.ap\"\nDISPLAY(f())\n"), ("app/sub/m.ap", "IMPORT MOD \"../sib.ap\"\nEXPORT PROCEDURE f() {\n RETURN g()\n}\n"), ("app/sib.ap", "EXPORT PROCEDURE g() {\n RETURN \"sibling\"\n}\n"), ("sib.ap", "EXPORT PROCEDURE g() {\n RETURN \"decoy above\"\n}\n")]),
             ("main.ap", vec![("main.ap", "IMPORT MOD \"./m.ap\"\nIMPORT MOD \"d/../m2.ap\"\nDISPLAY(a() + b())\n"), ("m.ap", "EXPORT PROCEDURE a() {\n RETURN 1\n}\n"), ("m2.ap", "EXPORT PROCEDURE b() {\n RETURN 2\n}\n"), ("d/keep", "")]),
             ("app/main.ap", vec![("app/main.ap", "IMPORT MOD \"../missing.ap\"\nDISPLAY(1)\n"), ("app/missing.ap", "DISPLAY(\"decoy\")\n")]),
+            // the same relative name along an import chain names different files (each resolved beside its importer)
+            ("main.ap", vec![("main.ap", "IMPORT MOD \"util.ap\"\nDISPLAY(top())\n"), ("util.ap", "DISPLAY(\"outer util\")\nIMPORT MOD \"lib/helpers.ap\"\nEXPORT PROCEDURE top() {\n RETURN help()\n}\n"), ("lib/helpers.ap", "DISPLAY(\"helpers\")\nIMPORT MOD \"util.ap\"\nEXPORT PROCEDURE help() {\n RETURN inner()\n}\n"), ("lib/util.ap", "DISPLAY(\"inner util\")\nEXPORT PROCEDURE inner() {\n RETURN \"from lib/util\"\n}\n")]),
+            // a diamond and a repeated import: every import statement runs the module's top level
+            ("main.ap", vec![("main.ap", "IMPORT MOD \"a.ap\"\nIMPORT MOD \"b.ap\"\nIMPORT MOD \"a.ap\"\nDISPLAY(fa() + fb())\n"), ("a.ap", "IMPORT MOD \"c.ap\"\nDISPLAY(\"a top\")\nEXPORT PROCEDURE fa() {\n RETURN 1\n}\n"), ("b.ap", "IMPORT MOD \"c.ap\"\nDISPLAY(\"b top\")\nEXPORT PROCEDURE fb() {\n RETURN 2\n}\n"), ("c.ap", "DISPLAY(\"c top\")\nEXPORT PROCEDURE fc() {\n RETURN 3\n}\n")]),
         ];
         for (li, (main_rel, files)) in layouts.iter().enumerate() {
             let root = scratch_dir(&format!("c13-inv-{li}"));
